@@ -54,8 +54,9 @@ RULES = {
     "C07": "random programs incl. tiny extrusions and inch frames; non-trivial = at least one "
            "episode closed, i.e. synthesised commands were emitted and read back",
     "C09": "random programs; non-trivial = more than 10 commands processed",
-    "C14": "random programs with @-commands; non-trivial = an episode closed by a disable action "
-           "or a move processed while disabled",
+    "C14": "random programs with @-commands (a third of them run as lines through the stream "
+           "processor, @-commands separated by blanks or tabs); non-trivial = an episode closed "
+           "by a disable action or a move processed while disabled",
 }
 
 
@@ -69,6 +70,10 @@ def gen_programs(prop, count, seed):
             progs.append(gen_fuzz.generate(pseed))
             continue
         progs.append(gen_motion.generate(pseed, focuses[index % len(focuses)]))
+        if prop == "C14" and index % 3 == 2:
+            # the same obligations through the second entry point: lines handed to the stream
+            # processor, @-commands separated by blanks or tabs (harness/rig.StreamRig)
+            progs[-1].route = "stream"
     return progs
 
 
@@ -258,9 +263,11 @@ def run(prop, tier, seed):
             for trace, prog in zip(traces, part):
                 trace["ev"] = trace["ev"] + stream_entry_events(prog)
         verdicts.extend(common.validate_traces("TraceT2", "TraceT2.cfg", traces, "t2-" + prop))
-        # sub-resolution values (1e-5 mm extrusion quanta) are below the model's native unit
+        # sub-resolution values (1e-5 mm extrusion quanta) are below the model's native unit;
+        # the stream route is conformance-checked against Stream.tla by the C20 family
         partial = t1_summary([t for t, p in zip(traces, part)
-                              if getattr(p, "focus", "") not in ("tiny", "fuzz")])
+                              if getattr(p, "focus", "") not in ("tiny", "fuzz")
+                              and getattr(p, "route", "hook") == "hook"])
         for key in ("conform", "diverged", "unmodelled"):
             t1[key] += partial[key]
         t1["first_divergences"] = (t1["first_divergences"] + partial["first_divergences"])[:5]
@@ -312,6 +319,7 @@ def replay(payload):
     if cfg.get("at"):
         cfg["at"] = [tuple(x) for x in cfg["at"]]
     prog.steps = [tuple(s) for s in progj["steps"]]
+    prog.route = progj.get("route", "hook")
     trace = record.run_filter_program(prog, 1, keep_state=False)
     verdicts = common.validate_traces("TraceT2", "TraceT2.cfg", [trace], "replay")
     verdict = verdicts[0]["v"][payload["property"]]
